@@ -184,11 +184,20 @@ func (p *FloatingIPPlugin) unbind(pod *corev1.Pod) error {
 		return err
 	}
 	key := keyObj.KeyInDB
-	if p.cloudProvider != nil {
-		ipInfos, err := p.ipam.ByKeyAndIPRanges(key, nil)
-		if err != nil {
-			return fmt.Errorf("query floating ip by key %s: %v", key, err)
+	ipInfos, err := p.ipam.ByKeyAndIPRanges(key, nil)
+	if err != nil {
+		return fmt.Errorf("query floating ip by key %s: %v", key, err)
+	}
+	for _, ipInfo := range ipInfos {
+		// A pod with the same name may have been created and bound again before the delete/finish event of this
+		// (older) pod is handled. The ips belong to the new pod then, keep them.
+		if ipInfo.PodUid != "" && string(pod.UID) != "" && ipInfo.PodUid != string(pod.UID) {
+			glog.Infof("skip unbinding pod %s uid %s, ip %s is now held by pod uid %s", key, string(pod.UID),
+				ipInfo.IP.String(), ipInfo.PodUid)
+			return nil
 		}
+	}
+	if p.cloudProvider != nil {
 		for _, ipInfo := range ipInfos {
 			ipStr := ipInfo.IPInfo.IP.IP.String()
 			glog.Infof("UnAssignIP nodeName %s, ip %s, key %s", ipInfo.NodeName, ipStr, key)
